@@ -42,6 +42,7 @@ type SliceV struct {
 	Base *Pointer // nil for nil slice
 	Str  *ByteArr // string snapshot (immutable)
 	IsStr bool
+	Alias *Pointer // ghost: the byte buffer an unsafe.String view was made of (its content is snapshotted in Str)
 	Off, Len, Cap *Term // 64-bit
 }
 
